@@ -819,6 +819,15 @@ def _sites(ck: Check, repo: Repo) -> None:
             old = get_kw(c, "old_net", 0)
             new = get_kw(c, "new_net", 1)
             label = f"{f.qualname}: {short(c, 70)}"
+            # `old` read into a local first (old_model = self.model ... preserve(old_model, new)): the local stands for the attribute
+            # as long as the attribute is not re-assigned between that read and the call
+            if isinstance(old, ast.Name) and n is not None:
+                ods = cfg.defs_reaching(n, old.id)
+                if len(ods) == 1 and ods[0].kind != "entry":
+                    ov = cfg.value_of_def(ods[0], old.id)
+                    if isinstance(ov, ast.Attribute) and dotted(ov).startswith("self.") and dotted(ov).count(".") == 1:
+                        if {id(x) for x in cfg.defs_reaching(ods[0], dotted(ov))} == {id(x) for x in cfg.defs_reaching(n, dotted(ov))}:
+                            old = ov
             ok_old = old is not None and dotted(old).startswith("self.") and dotted(old).count(".") == 1
             ck.ob("C04.3", f, c, ok_old, f"{label}: `old` is the network currently stored on the module", detail=f"old = {short(old, 50)}")
             ok_new = isinstance(new, ast.Name)
@@ -1102,4 +1111,13 @@ VARIANTS += [
      "        EvolvableCNN.carry_buffers_and_mode(old_net, new_net)\n" + _CARRY_HEAD + _CARRY_LOOP, "fire", "C04.2"),
     ("shrink-static-helper-never-called", _CNN, _SHRINK_TAIL,
      "        return new_net\n        EvolvableCNN.carry_buffers_and_mode(old_net, new_net)\n" + _CARRY_HEAD + _CARRY_LOOP + _CARRY_MODE, "fire", "C04.2"),
+]
+
+_MLP_PRESERVE = "        self.model = EvolvableModule.preserve_parameters(\n            old_net=self.model, new_net=model\n        )"
+VARIANTS += [
+    # round 5: the stored network read into a local first stands for the attribute (parallel assignments are split by the front end)
+    ("preserve-old-through-a-local-ok", "agilerl/modules/mlp.py", _MLP_PRESERVE,
+     "        old_model, unused = self.model, None\n        self.model = EvolvableModule.preserve_parameters(old_model, model)", "silent", None),
+    ("preserve-old-local-is-the-new-network", "agilerl/modules/mlp.py", _MLP_PRESERVE,
+     "        old_model = model\n        self.model = EvolvableModule.preserve_parameters(old_model, model)", "fire", "C04.3"),
 ]
